@@ -367,6 +367,25 @@ def run(scenario):
                 return V('auth_over_octets_never_on_the_wire', {'role': role, 'message': 'response'},
                          f'{n} ({role}) established IKE_SA {e["spi_i"].hex()} having authenticated over an IKE_SA_INIT response of {len(e["res"])} '
                          f'octets that it never {"received" if e["initiator"] else "sent"}')
+        # ---- whoever established agrees with itself: the KE values of the exchange it authenticated are in the DH group of the proposal it
+        #      chose / was told (a forged INVALID_KE_PAYLOAD must end in the group the real responder selects, not in the one the forger named)
+        for e in est:
+            try:
+                q = [R.dec_payload(p) for p in R.dec_chain(e['req'][28:], R.dec_header(e['req'])['next'])]
+                a = [R.dec_payload(p) for p in R.dec_chain(e['res'][28:], R.dec_header(e['res'])['next'])]
+            except Exception:
+                continue
+            kq = next((p['group'] for p in q if p['type'] == R.P_KE), None)
+            ka = next((p['group'] for p in a if p['type'] == R.P_KE), None)
+            sa_a = next((p for p in a if p['type'] == R.P_SA), None)
+            dh = next((t['id'] for t in sa_a['proposals'][0]['transforms'] if t['type'] == 4), None) if sa_a and sa_a['proposals'] else None
+            if None in (kq, ka, dh):
+                continue
+            reach['ke_group_judged'] = reach.get('ke_group_judged', 0) + 1
+            if not (kq == ka == dh):
+                return V('established_on_ke_group_not_the_chosen_one', {'role': 'initiator' if e['initiator'] else 'responder'},
+                         f'{e["node"]} established IKE_SA {e["spi_i"].hex()} over an IKE_SA_INIT exchange whose KE payloads are in groups {kq} / {ka} '
+                         f'while the chosen proposal names DH group {dh}' + (f' (MITM: {mit["kind"]} on message {mit["msg"]})' if mit else ''))
         # ---- MITM: a meaning-changing rewrite must end in failure at the deceived side
         if mit:
             reach['mitm.msg%d' % mit['msg']] = 1
